@@ -40,6 +40,7 @@ type TestStats struct {
 	Failed   bool             `json:"failed"`
 	Checks   int              `json:"checks_requested"`
 	Exh      bool             `json:"exhaustive"`
+	BulkDist int64            `json:"bulk_distinct"` // distinct-by-construction cases of enumerations (not hashed)
 	hset     map[uint64]struct{}
 }
 
@@ -206,6 +207,27 @@ func Enumerate(t *testing.T, cfg Cfg, body func(c func() *Case)) {
 		}
 	})
 	body(func() *Case { return &Case{ts: ts} })
+}
+
+// Bulk records n enumerated cases that are pairwise distinct by construction (e.g. consecutive ticks),
+// nt of which are non-trivial by the rule, without hashing each of them.
+func Bulk(name string, n, nt int64, sample string) {
+	mu.Lock()
+	defer mu.Unlock()
+	ts := tests[name]
+	ts.Evals += n
+	ts.NTTotal += nt
+	ts.BulkDist += nt
+	if sample != "" && len(ts.Samples) < 8 {
+		ts.Samples = append(ts.Samples, sample)
+	}
+}
+
+// BulkClass adds n to a class counter of an enumeration.
+func BulkClass(name, class string, n int64) {
+	mu.Lock()
+	defer mu.Unlock()
+	tests[name].Classes[class] += n
 }
 
 // Done finishes a Case created through Enumerate.
